@@ -25,6 +25,7 @@ type SinkCall struct {
 	Len      int    // requested
 	Accepted int    // accepted
 	API      string // API call in progress: New, Write#n, Close
+	Op       string // write | writestring | writebyte | readfrom
 	Failed   bool
 }
 
@@ -43,12 +44,44 @@ type Sink struct {
 	Log          *EventLog
 }
 
-func (s *Sink) Write(p []byte) (int, error) {
+func (s *Sink) Write(p []byte) (int, error) { return s.write(p, "write") }
+
+// SinkX is a Sink that also implements io.StringWriter, io.ByteWriter and
+// io.ReaderFrom, as *bufio.Writer and *os.File do: a library that type-asserts
+// on its destination takes other paths with it. Every such call is a sink
+// call: it is counted, can be the k-th failing call, and is a scheduling point.
+type SinkX struct{ *Sink }
+
+func (s SinkX) WriteString(str string) (int, error) { return s.Sink.write([]byte(str), "writestring") }
+
+func (s SinkX) WriteByte(c byte) error {
+	_, err := s.Sink.write([]byte{c}, "writebyte")
+	return err
+}
+
+func (s SinkX) ReadFrom(r io.Reader) (int64, error) {
+	data, rerr := io.ReadAll(r)
+	n, err := s.Sink.write(data, "readfrom")
+	if err == nil {
+		err = rerr
+	}
+	return int64(n), err
+}
+
+// AsWriter returns the sink in the requested flavour: "w" (io.Writer only) or "wx".
+func (s *Sink) AsWriter(kind string) io.Writer {
+	if kind == "wx" {
+		return SinkX{s}
+	}
+	return s
+}
+
+func (s *Sink) write(p []byte, op string) (int, error) {
 	if s.Yield != nil {
 		s.Yield()
 	}
 	k := len(s.Calls) + 1
-	call := SinkCall{Off: len(s.Data), Len: len(p), API: s.CurAPI}
+	call := SinkCall{Off: len(s.Data), Len: len(p), API: s.CurAPI, Op: op}
 	n := len(p)
 	var err error
 	if f := s.Fault; f != nil && (k == f.K || (f.Sticky && k > f.K)) {
@@ -67,7 +100,7 @@ func (s *Sink) Write(p []byte) (int, error) {
 	call.Accepted = n
 	s.Calls = append(s.Calls, call)
 	if s.Log != nil {
-		s.Log.Add("sink", "write", len(p), n, err != nil, HashBytes(p[:n]))
+		s.Log.Add("sink", op, len(p), n, err != nil, HashBytes(p[:n]))
 	}
 	return n, err
 }
@@ -97,6 +130,8 @@ type SrcStats struct {
 	Reads      int
 	ReadBytes  int
 	Seeks      int
+	ReadAts    int
+	WriteTos   int
 	Shortened  int // reads that returned fewer bytes than requested although more were available
 	EOFData    int // reads that returned n>0 together with io.EOF
 	Fired      int // calls that returned an injected fault
@@ -300,10 +335,66 @@ type SourceB struct{ *Source }
 
 func (s SourceB) ReadByte() (byte, error) { return s.Source.readByte() }
 
-// AsReadSeeker returns the source in the requested flavour: "rs" or "rsb".
+// SourceX additionally implements io.ReaderAt and io.WriterTo, as
+// *bytes.Reader does (and *os.File in part).
+type SourceX struct{ SourceB }
+
+// ReadAt honours the io.ReaderAt contract: it fills p completely or returns an
+// error; it does not move the stream position. It is a source call: counted,
+// can be the k-th failing call.
+func (s SourceX) ReadAt(p []byte, off int64) (int, error) {
+	src := s.Source
+	src.step()
+	src.Stats.ReadAts++
+	if src.faulted() {
+		src.fire("readat")
+		src.log("readat", len(p), 0, true, nil)
+		if src.Fault.Kind == "early_eof" {
+			return 0, io.EOF
+		}
+		return 0, ErrInjected
+	}
+	if off < 0 || off >= int64(len(src.data)) {
+		src.log("readat", len(p), 0, false, nil)
+		return 0, io.EOF
+	}
+	n := copy(p, src.data[off:])
+	src.log("readat", len(p), n, false, p[:n])
+	if n < len(p) {
+		return n, io.EOF
+	}
+	return n, nil
+}
+
+// WriteTo writes the rest of the stream to w (what io.Copy uses when present).
+func (s SourceX) WriteTo(w io.Writer) (int64, error) {
+	src := s.Source
+	src.step()
+	src.Stats.WriteTos++
+	if src.faulted() {
+		src.fire("writeto")
+		src.log("writeto", 0, 0, true, nil)
+		return 0, ErrInjected
+	}
+	if src.pos >= int64(len(src.data)) {
+		return 0, nil
+	}
+	rest := src.data[src.pos:]
+	n, err := w.Write(rest)
+	src.pos += int64(n)
+	src.log("writeto", len(rest), n, false, rest[:n])
+	return int64(n), err
+}
+
+// AsReadSeeker returns the source in the requested flavour: "rs"
+// (io.ReadSeeker only), "rsb" (+ io.ByteReader) or "rsx" (+ io.ByteReader,
+// io.ReaderAt, io.WriterTo).
 func (s *Source) AsReadSeeker(kind string) io.ReadSeeker {
-	if kind == "rsb" {
+	switch kind {
+	case "rsb":
 		return SourceB{s}
+	case "rsx":
+		return SourceX{SourceB{s}}
 	}
 	return s
 }
